@@ -31,6 +31,9 @@ pub enum Fault {
     Header(Vec<u8>),
     /// arbitrary stream
     Stream(Vec<u8>),
+    /// cut at (1 + mult mod #blocks)·2^log2 + delta: just before/after a multiple of a power of two
+    /// (buffer and block sizes of readers), resolved to `Cut` once the image length is known
+    CutNear(u8, u16, i8),
 }
 
 #[derive(Clone, Debug, Serialize, Deserialize, PartialEq, Eq, Hash)]
@@ -93,6 +96,8 @@ pub fn faulty_stream(image: &[u8], f: &Fault) -> Option<Vec<u8>> {
             }
             s.clone()
         }
+        // resolved to `Cut` by the caller (needs the image length); a strict replay of an unresolved one cuts in the middle
+        Fault::CutNear(..) => image[..image.len() / 2].to_vec(),
     })
 }
 
@@ -130,6 +135,7 @@ impl Sub for Faults {
             base_case(),
             prop_oneof![
                 3 => any::<u32>().prop_map(|r| Fault::Cut(r as usize)),
+                3 => (9u8..=22, any::<u16>(), -12i8..=12).prop_map(|(k, m, d)| Fault::CutNear(k, m, d)),
                 2 => (0usize..21, any::<u8>()).prop_map(|(p, b)| Fault::MagicByte(p, b)),
                 2 => proptest::sample::select(old_new).prop_map(Fault::Header),
                 1 => proptest::collection::vec(any::<u8>(), 0..200).prop_map(Fault::Stream),
@@ -139,7 +145,7 @@ impl Sub for Faults {
             .boxed()
     }
     fn rule(&self) -> String {
-        "generated dictionary images (all connector kinds, ± user lexicon, ± mapper) × one fault: a random cut point (reduced modulo the image length), a single-byte substitution in the magic, \
+        "generated dictionary images (all connector kinds, ± user lexicon, ± mapper) × one fault: a random cut point (reduced modulo the image length), a cut within ±12 bytes of a multiple of 2^9..2^22 (reader block sizes), a single-byte substitution in the magic, \
          an older/newer/near-miss version header with a valid body, or a random byte stream; oracle: Dictionary::read returns Err without panicking; non-trivial = fault beyond a plain empty stream; \
          distinct = hash(image, fault)".into()
     }
@@ -147,6 +153,14 @@ impl Sub for Faults {
         let image = image_of(&case.base)?;
         let fault = match &case.fault {
             Fault::Cut(n) => Fault::Cut(n % image.len()),
+            Fault::CutNear(k, m, d) => {
+                let block = 1usize << k.min(&30);
+                let nblocks = image.len() / block;
+                let at = if nblocks == 0 { image.len() / 2 } else { (1 + usize::from(*m) % nblocks) * block };
+                ctx.label_if(nblocks > 0, "cut_near_power_of_two_multiple");
+                ctx.label_if(nblocks > 0 && block >= (1 << 20), "cut_near_MiB_multiple");
+                Fault::Cut((at as i64 + i64::from(*d)).clamp(0, image.len() as i64 - 1) as usize)
+            }
             f => f.clone(),
         };
         let Some(stream) = faulty_stream(&image, &fault) else {
@@ -159,6 +173,7 @@ impl Sub for Faults {
             Fault::MagicByte(..) => "magic_byte",
             Fault::Header(_) => "header",
             Fault::Stream(_) => "stream",
+            Fault::CutNear(..) => unreachable!(),
         });
         ctx.label(case.base.spec.conn.kind());
         if !stream.is_empty() {
